@@ -139,6 +139,135 @@ def build_drv(case):
     return top, ports + [s for i, s in enumerate(sigs)]
 
 
+# ================================================================ part (a'): placements under inserters / renamers
+WR_DOMAINS = ("sync", "d1", "d2")
+_CTL_SETS = ("value", ["d1"], ["sync", "d1"], ["d1", "d2"], ["d2", "sync"], ["sync", "d1", "d2"])
+_RENAMES_APART = ("d3", {"d1": "d3"}, {"d1": "d2", "d2": "d1"}, {"sync": "d1", "d1": "sync"})
+_RENAMES_MERGE = ({"d1": "d2"}, {"sync": "d1"}, {"d2": "sync", "d1": "sync"}, {"d2": "d1", "sync": "d3"})
+WR_CHAINS = ([[["R", c]] for c in _CTL_SETS] + [[["E", c]] for c in _CTL_SETS] +
+             [[["D", d]] for d in _RENAMES_APART + _RENAMES_MERGE] +
+             [[["E", ["d1", "d2"]], ["R", ["sync", "d1", "d2"]]],          # innermost first
+              [["R", ["d1", "d2"]], ["E", ["sync", "d2"]]],
+              [["R", ["d1", "d2"]], ["D", {"d1": "d2"}]],                  # reset inserted on the old names, then merged
+              [["D", {"d1": "d2"}], ["R", ["d2", "sync"]]],                # merged, then reset on the new name
+              [["E", ["d1", "d2"]], ["D", {"d1": "d2", "d2": "d1"}]],
+              [["D", {"d1": "d2"}], ["D", {"d2": "d3"}]],                  # d1 -> d2 -> d3 and d2 -> d3: merged
+              [["D", {"d2": "d3"}], ["D", {"d1": "d2"}]],                  # d2 -> d3, then d1 -> d2: kept apart
+              [["R", ["d1", "d2"]], ["R", ["d2", "sync"]]]])
+
+
+def wr_placements(widths):
+    """2 drivers: every ordered pair; 3 drivers: every multiset; logic in top / child, domains sync / d1 / d2, every bit
+    subset of every signal; at least two different domains"""
+    opts = [("L", mod, dom, sig, mask) for sig, w in enumerate(widths) for mask in range(1, 1 << w)
+            for mod in ("top", "child") for dom in WR_DOMAINS]
+    for combo in itertools.product(opts, repeat=2):
+        if len({d[2] for d in combo}) >= 2:
+            yield combo
+    for combo in itertools.combinations_with_replacement(opts, 3):
+        if len({d[2] for d in combo}) >= 2:
+            yield combo
+
+
+def wr_cases(widths):
+    for combo in wr_placements(widths):
+        drivers = [list(d) for d in combo]
+        mods = {d[1] for d in combo}
+        base = {"part": "wr", "widths": list(widths), "drivers": drivers}
+        dsl_early = M.driver_truth(dict(base, frontend="dsl")) == "SyntaxError"
+        frontends = ["dsl"] + (["frag"] if (len(combo) == 2 or dsl_early) else [])
+        for fe in frontends:
+            yield dict(base, frontend=fe, wrap=None)
+            if fe == "dsl" and dsl_early:
+                continue                           # rejected while the design is written; no wrapper is ever applied
+            for pos in ("top", "child"):
+                if pos == "child" and "child" not in mods:
+                    continue                       # nothing inside the wrapped subtree
+                for chain in WR_CHAINS:
+                    if fe == "frag" and len(combo) == 3 and not any(k == "D" for k, a in chain):
+                        continue                   # raw-Fragment triples exist for the renamers (a merge can legalise them)
+                    yield dict(base, frontend=fe, wrap={"pos": pos, "chain": chain})
+
+
+def wr_sig(case):
+    ds = ",".join(f"{m}.{d}:s{s}m{mask:o}" for k, m, d, s, mask in case["drivers"])
+    w = case.get("wrap")
+    if not w:
+        ws = "plain"
+    else:
+        def one(k, a):
+            if k == "D":
+                return "D(" + (a if isinstance(a, str) else ",".join(f"{x}>{y}" for x, y in a.items())) + ")"
+            return k + "(" + (a if isinstance(a, str) else ",".join(a)) + ")"
+        ws = w["pos"] + ":" + "<".join(one(k, a) for k, a in reversed(w["chain"]))      # outermost first
+    return f"wr:{case['frontend']}:w{''.join(map(str, case['widths']))}:[{ds}]:{ws}"
+
+
+def build_wr(case):
+    """root (defines the clock domains) > top > child.  May raise the DSL's statement-time SyntaxError."""
+    from amaranth.hdl import Module, Signal, ClockDomain, Fragment, ResetInserter, EnableInserter, DomainRenamer
+    dsl = case["frontend"] == "dsl"
+    sigs = [Signal(w, name=f"s{i}") for i, w in enumerate(case["widths"])]
+    xin = Signal(4, name="xin")
+    ports = [xin] + sigs
+    ctl = {}
+
+    def wrapper(kind, arg):
+        if kind == "D":
+            return DomainRenamer(arg)
+        cls = ResetInserter if kind == "R" else EnableInserter
+        if arg == "value":
+            c = Signal(1, name=f"ctl{len(ctl)}")
+            ctl[len(ctl)] = c
+            ports.append(c)
+            return cls(c)
+        cs = {}
+        for d in arg:
+            cs[d] = Signal(1, name=f"ctl{len(ctl)}_{d}")
+            ctl[len(ctl)] = cs[d]
+            ports.append(cs[d])
+        return cls(cs)
+
+    def wrap(obj, pos):
+        w = case.get("wrap")
+        if w and w["pos"] == pos:
+            for kind, arg in w["chain"]:
+                obj = wrapper(kind, arg)(obj)
+        return obj
+    new = (lambda: Module()) if dsl else (lambda: Fragment())
+    root, top, child = new(), new(), new()
+    cds = [ClockDomain(n) for n in ("sync", "d1", "d2", "d3")]
+    if dsl:
+        root.domains += cds
+    else:
+        root.add_domains(*cds)
+    use_child = any(d[1] == "child" for d in case["drivers"])
+    for kind, mod, dom, sig, mask in case["drivers"]:
+        m = top if mod == "top" else child
+        s = sigs[sig]
+        bits = [b for b in range(len(s)) if mask >> b & 1]
+        if bits == list(range(bits[0], bits[-1] + 1)):
+            lhs = s if len(bits) == len(s) else s[bits[0]:bits[-1] + 1]
+        else:
+            from amaranth.hdl import Cat
+            lhs = Cat(*[s[b] for b in bits])
+        stmt = lhs.eq(xin[:len(lhs)])
+        if dsl:
+            m.d[dom] += stmt
+        else:
+            m.add_statements(dom, stmt)
+    if use_child:
+        if dsl:
+            top.submodules.child = wrap(child, "child")
+        else:
+            top.add_subfragment(wrap(child, "child"), "child")
+    if dsl:
+        root.submodules.top = wrap(top, "top")
+    else:
+        root.add_subfragment(wrap(top, "top"), "top")
+    return root, ports
+
+
 # ================================================================ part (b): dependency graphs
 def all_edges(n):
     return [(u, v) for u in range(n) for v in range(n)]          # (u, v): v depends on u; self loops included
